@@ -11,6 +11,7 @@ mod monitors;
 mod runs;
 mod xsolve;
 mod lu;
+mod xpy;
 
 fn main() {
     let args: Vec<String> = std::env::args().collect();
@@ -27,6 +28,7 @@ fn main() {
         "xsolout" => solout::run(rest),
         "xsolve" => xsolve::run(rest),
         "xlu" => lu::run(rest),
+        "xpy" => xpy::run(rest),
         "event-check" => monitors::events(rest),
         "teval-check" => monitors::teval(rest),
         "interval-check" => runs::interval(rest),
